@@ -463,6 +463,9 @@ static void _GD_Delete(DIRFILE *restrict D, gd_entry_t *restrict E,
       sizeof(gd_entry_t *) * (D->n_entries - index - 1));
   D->n_entries--;
 
+  /* rehash the aliases: a chain may have run through a deleted alias */
+  _GD_UpdateAliases(D, 1);
+
   dreturnvoid();
 }
 
